@@ -10,9 +10,11 @@ import (
 	"time"
 
 	"github.com/Comcast/rulio/core"
+	"github.com/Comcast/rulio/cron"
 	"github.com/Comcast/rulio/zzverif/simrt"
 
 	"verif/sim/h"
+	"verif/sim/hs"
 )
 
 // C04 — an event runs each action exactly once per rule and binding result.
@@ -217,6 +219,9 @@ func execC04(t *testing.T, plan *h.Plan, trace bool) *h.Result {
 		ctl := h.QuietControl()
 		ctl.MaxFacts = 100000
 		eng := h.NewCoreEngine(state, back, ctl)
+		// (the state hooks a System installs: an action's Env.AddFact runs them too)
+		c04Cron := hs.NewSimCron(true)
+		eng.OnNewState = func(ctx *core.Context, name string, st core.State) { cron.AddHooks(ctx, c04Cron, st) }
 		loc := eng.Loc("L")
 		for _, op := range plan.Ops {
 			switch op.K {
